@@ -100,6 +100,15 @@ Theorem C01_source_header_layout :
 Proof. split; reflexivity. Qed.
 Print Assumptions C01_source_header_layout.
 
+(* the three length-driven consumers take exactly the declared length minus the 8-byte section header (minus the 4-byte prefix of
+   an extended user-data section), as one get_mem - the model's parse_body reads get_memN (len - 8) / (len - 12) *)
+Theorem C01_source_length_driven :
+  Gen.Layouts.ok_UserData = true /\ Gen.Layouts.rd_UserData = Spec.PublishedLayouts.rd_UserData /\
+  Gen.Layouts.ok_ExtUserData = true /\ Gen.Layouts.rd_ExtUserData = Spec.PublishedLayouts.rd_ExtUserData /\
+  Gen.Layouts.ok_Default = true /\ Gen.Layouts.rd_Default = Spec.PublishedLayouts.rd_Default.
+Proof. repeat split; reflexivity. Qed.
+Print Assumptions C01_source_length_driven.
+
 Theorem C01_header_reader_is_layout : forall s,
   parse_header s = match LayoutFacts.read_fields Spec.PublishedLayouts.rd_parseHeader s with
                    | Some ([i; l; v; t; c], rest) =>
